@@ -216,3 +216,17 @@ func init() {
 		Rules:       []*Rule{exhaustRule("Compile", 20), ruleDispatch, ruleLoopVarScope, ruleVMValues, runesRule("pkg/bytecode", "stringVal", 4), f2iRule("pkg/bytecode", 2)},
 	})
 }
+
+func init() {
+	Register(&Property{
+		ID: "C20",
+		Explanation: "Decides structural necessary conditions of 'sealed answers round-trip and verification is exact' (R-CRYPTO, learn module): the " +
+			"symmetric layer is an AEAD so tampering is rejected; every error of the decode/decrypt chain is returned before the value is used; the " +
+			"envelope is sliced behind length checks; both directions agree on hash, label, nonce, additional data and header layout; the crypto " +
+			"functions keep no package state (any key pair round-trips in any order); verifyChoiceMatch rejects on both conditions using the exact " +
+			"outputs; match verification is gated by isMatchQuestion.",
+		NotDecided:  "Round-trip equality and tamper rejection as such (they follow from the primitives given these clauses); the iff of verifyChoiceMatch over all subsets (a marked choice beyond the last existing one is never examined — value-level).",
+		Assumptions: []string{"crypto/aes, crypto/cipher, crypto/rsa behave as documented"},
+		Rules:       []*Rule{ruleCrypto},
+	})
+}
